@@ -3,6 +3,7 @@
 Link 1 (Coq): coq/C18/Properties.v
   * `linearizable` (Wing-Gong search against one register per file) is sound and complete for the
     definition `lin_spec`;
+  * `C18_every_call_returns`: any configuration, any schedule: finite runs, no deadlock (unbounded induction);
   * for each listed finite configuration, EVERY schedule (closed-finite-set reflection, no depth bound):
     no deadlock, every run finite, and every quiescent state reached without unloading an in-flight
     entry is linearizable and agrees (disk = cache = last successful update, accounting = sum of entries);
